@@ -126,7 +126,21 @@ impl ProofCase {
                     }
                     let tag = refm.cons.len() as u32 + 1;
                     // an infeasibility error while posting is fine: the final solve concludes
-                    let _ = adapter::post(&mut solver, &binding, c, Some(tag));
+                    let r = adapter::post(&mut solver, &binding, c, Some(tag));
+                    fn is_clause(c: &Con) -> bool {
+                        match c {
+                            Con::PredClause(_) | Con::ViewClause(_) | Con::LitClause(_) | Con::LitConj(_) => true,
+                            Con::Not(i) | Con::Half(i, _) | Con::Reif(i, _) => is_clause(i),
+                            _ => false,
+                        }
+                    }
+                    if r.is_err() && is_clause(c) {
+                        // A clause that is false at the root when it is posted cannot be written
+                        // to the proof ("This breaks the proof. If it occurs, we should fix up the
+                        // proof logging. The main issue is that nogoods are not tagged." in
+                        // add_clause): the gap the code documents itself, outside this check.
+                        return Ok(());
+                    }
                     refm.add_con(c.clone());
                 }
                 o if o.is_solve() => final_op = Some(o),
@@ -557,7 +571,8 @@ pub fn generate(prop: &str, rng: &mut crate::rng::Rng, thorough: bool) -> ProofC
     // Clauses posted through the API cannot be tagged ("tagging clauses is not implemented"; the
     // code notes that untagged nogoods are a gap of the proof logging), so a derivation that rests
     // on one has no inference a checker could validate; they are outside this workload.
-    let mut pool: Vec<Kind> = CORE_KINDS.iter().copied().filter(|k| !matches!(k, Kind::PredClause | Kind::ViewClause | Kind::LitClause | Kind::LitConj)).collect();
+    let with_clauses = true;
+    let mut pool: Vec<Kind> = CORE_KINDS.iter().copied().filter(|k| with_clauses || !matches!(k, Kind::PredClause | Kind::ViewClause | Kind::LitClause | Kind::LitConj)).collect();
     pool.push(Kind::Cumulative);
     let mut sw = Swarm::draw(rng, &pool, thorough);
     let optimise = rng.chance(0.45);
